@@ -92,6 +92,17 @@ func storeDigest(bc *core.BasicCluster) string {
 	return b.String()
 }
 
+// storeDigests: the same, per store.
+func storeDigests(bc *core.BasicCluster) map[uint64]string {
+	out := map[uint64]string{}
+	for _, s := range bc.GetStores() {
+		m := proto.Clone(s.GetMeta()).(*metapb.Store)
+		m.LastHeartbeat = 0
+		out[s.GetID()] = fmt.Sprintf("%s|%v|%v;", m.String(), s.GetLeaderWeight(), s.GetRegionWeight())
+	}
+	return out
+}
+
 const c14Group = 12
 
 func c14(rc *corepkg) {
@@ -169,6 +180,7 @@ func c14(rc *corepkg) {
 			pick := stores[s.Choose(len(stores), "st.pick")]
 			id := pick.GetID()
 			before := storeDigest(bc)
+			beforeStores := storeDigests(bc)
 			wasTombstone := pick.IsTombstone()
 			var err error
 			var hdrErr *pdpb.Error
@@ -272,6 +284,31 @@ func c14(rc *corepkg) {
 			failed := err != nil || hdrErr != nil
 			injected := err != nil && strings.Contains(err.Error(), "injected")
 			after := storeDigest(bc)
+			if failed && lifecycle && after != before && name == "RemoveTombStoneRecords" {
+				// the cleanup is one storage write per tombstone: the failed write must leave ITS store unchanged; stores whose
+				// own delete succeeded before it are gone from the served state and from storage alike
+				ok := true
+				now := storeDigests(bc)
+				for sid, d := range beforeStores {
+					if nd, there := now[sid]; there {
+						ok = ok && nd == d
+						continue
+					}
+					var loaded metapb.Store
+					var found bool
+					admin("load-store", func() error { found, _ = st.LoadStore(sid, &loaded); return nil })
+					ok = ok && !found && strings.Contains(d, "state:Tombstone")
+				}
+				for sid := range now {
+					if _, was := beforeStores[sid]; !was {
+						ok = false
+					}
+				}
+				if ok {
+					after = before
+					rc.Extra["partial_tombstone_cleanup"]++
+				}
+			}
 			if failed && lifecycle && after != before {
 				rc.Violate("c14.atomic", "failed-change-changed-served-state", "%s failed (%v %v) but the served store state changed:\n before %s\n after  %s", name, err, hdrErr, before, after)
 				return
